@@ -82,8 +82,8 @@ Qed.
 (* ---- I/O drawer format 1 (BMC) ---- *)
 Lemma rstrip_nl_line s c : is_nl c = false -> rstrip_by is_nl ((s ++ [c]) ++ [nl]) = s ++ [c].
 Proof.
-  intros H. unfold rstrip_by. rewrite rev_app_distr. change (rev [nl]) with [nl]. cbn [app lstrip_by].
-  change (is_nl nl) with true. cbn iota. fold (rstrip_by is_nl (s ++ [c])). apply rstrip_by_last. assumption.
+  intros H. rewrite rstrip_by_rev. rewrite rev_app_distr. change (rev [nl]) with [nl]. cbn [app lstrip_by].
+  change (is_nl nl) with true. cbn iota. rewrite <- rstrip_by_rev. apply rstrip_by_last. assumption.
 Qed.
 
 Lemma line_rt_fmt1 dig off l : good_dig dig -> Forall (fun b => b < 256) l -> (1 <= length l <= 16)%nat ->
@@ -157,7 +157,7 @@ Proof.
 Qed.
 Lemma rstrip_keep p a c r : p c = false -> exists r', rstrip_by p (a ++ c :: r) = a ++ c :: r'.
 Proof.
-  intros Hc. unfold rstrip_by. rewrite rev_app_distr. cbn [rev]. rewrite <- app_assoc. cbn [app].
+  intros Hc. rewrite rstrip_by_rev. rewrite rev_app_distr. cbn [rev]. rewrite <- app_assoc. cbn [app].
   destruct (lstrip_keep p c (rev a) Hc (rev r)) as (u' & ->).
   exists (rev u'). rewrite rev_app_distr. cbn [rev]. rewrite rev_involutive, <- app_assoc. reflexivity.
 Qed.
